@@ -214,6 +214,53 @@ inline bool hugPoint(vh::Rng &r, const Scene &s, const std::vector<DPoly> &rp, d
     return false;
 }
 
+
+// ---- helpers for edit histories (harness side, doubles; the Lean driver re-decides everything exactly)
+
+inline DPoly rectD(double lx, double ly, double hx, double hy) {        // Avoid::Rectangle vertex order, counter-clockwise
+    DPoly q; q.push_back(Avoid::Point(hx, ly)); q.push_back(Avoid::Point(hx, hy)); q.push_back(Avoid::Point(lx, hy)); q.push_back(Avoid::Point(lx, ly)); return q;
+}
+
+// does the segment pq pass through the open rectangle (lx,hx) x (ly,hy) with positive length
+inline bool segCrossesRectD(double lx, double ly, double hx, double hy, const Avoid::Point &p, const Avoid::Point &q) {
+    double t0 = 0, t1 = 1, dx = q.x - p.x, dy = q.y - p.y;
+    double pp[4] = {-dx, dx, -dy, dy}, qq[4] = {p.x - lx, hx - p.x, p.y - ly, hy - p.y};
+    for (int i = 0; i < 4; ++i) {
+        if (pp[i] == 0) { if (qq[i] <= 0) return false; }
+        else { double t = qq[i] / pp[i]; if (pp[i] < 0) t0 = std::max(t0, t); else t1 = std::min(t1, t); }
+    }
+    return t1 - t0 > 1e-9;
+}
+
+// An axis-parallel rectangle (half sizes hw, hh; <= 0: random; corners jittered by k/64 if `jitter`) that crosses exactly
+// the chosen segment of `route` (segsel 0 first, 1 a middle one, 2 last, 3 any), keeps a gap >= `gap` to every shape in
+// `others` and stays clear of the given points.
+inline bool placeAcrossD(vh::Rng &r, const std::vector<Avoid::Point> &route, int segsel, const std::vector<DPoly> &others,
+                         const std::vector<Avoid::Point> &keepClear, double hw0, double hh0, bool jitter, double gap,
+                         DPoly &out, size_t &segOut) {
+    if (route.size() < 2) return false;
+    size_t n = route.size() - 1;
+    const double sizes[] = {0.5, 1, 1.5, 2, 3};
+    for (int t = 0; t < 80; ++t) {
+        size_t seg = (segsel == 0) ? 0 : (segsel == 2) ? n - 1 : (segsel == 1 && n >= 3) ? (size_t) r.range(1, (long) n - 2) : (size_t) r.range(0, (long) n - 1);
+        double hw = hw0 > 0 ? hw0 : sizes[r.range(0, 4)], hh = hh0 > 0 ? hh0 : sizes[r.range(0, 4)];
+        const Avoid::Point &p = route[seg], &q = route[seg + 1];
+        double u = r.range(20, 80) / 100.0;
+        double cx = std::floor((p.x + u * (q.x - p.x)) * 8 + 0.5) / 8 + r.range(-4, 4) / 16.0 * hw;
+        double cy = std::floor((p.y + u * (q.y - p.y)) * 8 + 0.5) / 8 + r.range(-4, 4) / 16.0 * hh;
+        cx = std::floor(cx * 64 + 0.5) / 64; cy = std::floor(cy * 64 + 0.5) / 64;
+        if (jitter) { cx += r.range(-15, 15) / 64.0; cy += r.range(-15, 15) / 64.0; }
+        double lx = cx - hw, hx = cx + hw, ly = cy - hh, hy = cy + hh;
+        bool ok = true;
+        for (size_t i = 0; i < n && ok; ++i) if (segCrossesRectD(lx, ly, hx, hy, route[i], route[i + 1]) != (i == seg)) ok = false;
+        DPoly Rg = rectD(lx - gap, ly - gap, hx + gap, hy + gap), R = rectD(lx, ly, hx, hy);
+        for (size_t i = 0; i < others.size() && ok; ++i) if (!interiorDisjointD(Rg, others[i])) ok = false;
+        for (size_t i = 0; i < keepClear.size() && ok; ++i) if (inClosedD(R, keepClear[i].x, keepClear[i].y, 0.5)) ok = false;
+        if (ok) { out = R; segOut = seg; return true; }
+    }
+    return false;
+}
+
 inline Avoid::Polygon toAvoid(const DPoly &p) {
     Avoid::Polygon q(p.size());
     for (size_t i = 0; i < p.size(); ++i) q.ps[i] = p[i];
